@@ -474,6 +474,22 @@ func propC07(o *out, r *rng, thorough bool) {
 			}
 		}
 	}
+	for _, text := range []string{"value > $threshold", "f($x)", "$\"multi-word value\" + 1", "$p", "a AND $b", "-$x", "host =~ $re", "$", "x = $\"\""} {
+		o.count("helper-unbound")
+		o.checked()
+		var e influxql.Expr
+		var err error
+		pn := safely(func() { e, err = influxql.ParseExpr(text) })
+		if pn != nil || err == nil {
+			o.fail("", fmt.Sprintf("ParseExpr(%q), which has no parameters to bind, returns %v (%v) instead of an error", text, e, pn), map[string]interface{}{"op": "helper_unbound", "text": text})
+		}
+		st, serr := influxql.ParseStatement("SELECT v FROM m WHERE " + text)
+		if serr == nil {
+			if _, qerr := influxql.ParseQuery("SELECT v FROM m WHERE " + text); qerr == nil {
+				o.fail("", fmt.Sprintf("a statement with the unbound placeholder in %q is accepted: %v", text, st), map[string]interface{}{"op": "helper_unbound", "text": text})
+			}
+		}
+	}
 	// generated statements with a literal position replaced by a placeholder
 	n := 300
 	if thorough {
